@@ -232,9 +232,9 @@ def apiDisconnect (cfg : Cfg) (c : Cli) : Cli × List Out :=
 
 /-! ### packets from the server -/
 
-/-- `(data or {}).get('sid', self.sid)` -/
-def sidOf (c : Cli) (data : Option J) : Except Err J :=
-  let dflt : J := match c.sid with
+/-- `(data or {}).get('sid', sid)` -/
+def sidVal (sid : Option Str) (data : Option J) : Except Err J :=
+  let dflt : J := match sid with
     | some s => .str s
     | none => .null
   match data with
@@ -244,6 +244,9 @@ def sidOf (c : Cli) (data : Option J) : Except Err J :=
     else match d with
       | .obj kvs => .ok ((lookup sSid kvs).getD dflt)
       | _ => .error .attributeError
+
+/-- `(data or {}).get('sid', self.sid)` -/
+def sidOf (c : Cli) (data : Option J) : Except Err J := sidVal c.sid data
 
 def handleConnect (cfg : Cfg) (c : Cli) (ns : Option Ns) (data : Option J) : Cli × List Out :=
   let n := nsOr ns
